@@ -384,6 +384,19 @@ Section IncludeFacts.
     intros Ha Hs H2 N2 L2. cbn [process]. rewrite Ha. rewrite Hs. cbn [do_includes]. rewrite H2.
     destruct n2; try congruence; cbn [o_tree]; rewrite L2; reflexivity.
   Qed.
+
+  (* a scope without nested schemas is exactly the fold over its include fields *)
+  Theorem process_flat incs t : process load_file (ISchema incs []) t = do_includes load_file incs t.
+  Proof. cbn [process]. destruct (do_includes load_file incs t); reflexivity. Qed.
+
+  (* include fields that the document does not name (absent or None), however many: nothing is read, nothing changes *)
+  Theorem includes_unnamed incs t :
+    (forall k fid, In (k, fid) incs -> tget k t = None \/ tget k t = Some (TLeaf PNone)) ->
+    do_includes load_file incs t = Ok t.
+  Proof.
+    induction incs as [|[k fid] incs IH]; intros H; cbn [do_includes]; [reflexivity|].
+    destruct (H k fid (or_introl eq_refl)) as [E|E]; rewrite E; apply IH; intros k' f' Hin; apply (H k' f'); right; exact Hin.
+  Qed.
 End IncludeFacts.
 
 (* ---- non-vacuity ---- *)
